@@ -22,7 +22,7 @@ RULE = (
     "inserts in reverse; appends with interleaved removals) that end in the same sequence; in 40% of the pairs the two "
     "files are of different classes of the same family (framework class, a subclass, a sibling, a sub-subclass); "
     "compared with the model. reread: (register definitions, content) read twice -> the two files must be equal and "
-    "write identical output; a third file with the same elements is built through the API and, when it compares equal, must write the same output too. history (objects with a past): in 30% of the pairs one or both files are first built holding OTHER values at one to three positions, compared once (both ways, files and containers), and then brought to the sequence of the case by in-place edits of the elements (assignment into element.data[k], or a new list through the data setter) before the comparisons that are observed - the model is given the final sequences only; in every reread case a further file (the one read, or one built through the API) goes through one or two rounds of earlier uses (written once or twice, written element by element, compared with a twin) each followed by in-place edits of one to three values (element.data[k] = v directly, through a user-defined property whose setter assigns into self.data[k], a new list through the data setter, a new line for a default register; sometimes edited back to the old values) and is then compared with a file freshly built from copies of the values it now holds: when the two compare equal they must write identical output. accepted formats and other content in between: in half of the reread cases the date columns are declared with a LIST of two or three accepted formats (some of them ambiguous with each other) and lines whose dates are rendered in any of the accepted formats are mixed into the content; in half of the reread cases a second content for the same register types (lines of the first one reshuffled plus new lines, dates in any accepted format) is read and written with the same file class between two writes of the first file and before the content is read once more - the first file must write the same output before and after, and the content read again must give a file equal to the first one that writes the same output. non-trivial = pair with same-family right-hand side of length >= 1; distinct by full case."
+    "write identical output; a third file with the same elements is built through the API and, when it compares equal, must write the same output too. history (objects with a past): in 30% of the pairs one or both files are first built holding OTHER values at one to three positions, compared once (both ways, files and containers), and then brought to the sequence of the case by in-place edits of the elements (assignment into element.data[k], or a new list through the data setter) before the comparisons that are observed - the model is given the final sequences only; shared payloads: in 35% of the pairs without a past some elements of b hold the VERY SAME data object as an element of a with equal values (mostly the corresponding position - two copies of a file sharing their payloads - sometimes another one), whatever the classes of the two elements; the model is given the values only, identity of the payload objects must not matter; in every reread case a further file (the one read, or one built through the API) goes through one or two rounds of earlier uses (written once or twice, written element by element, compared with a twin) each followed by in-place edits of one to three values (element.data[k] = v directly, through a user-defined property whose setter assigns into self.data[k], a new list through the data setter, a new line for a default register; sometimes edited back to the old values) and is then compared with a file freshly built from copies of the values it now holds: when the two compare equal they must write identical output. accepted formats and other content in between: in half of the reread cases the date columns are declared with a LIST of two or three accepted formats (some of them ambiguous with each other) and lines whose dates are rendered in any of the accepted formats are mixed into the content; in half of the reread cases a second content for the same register types (lines of the first one reshuffled plus new lines, dates in any accepted format) is read and written with the same file class between two writes of the first file and before the content is read once more - the first file must write the same output before and after, and the content read again must give a file equal to the first one that writes the same output. non-trivial = pair with same-family right-hand side of length >= 1; distinct by full case."
 )
 ASSUMPTIONS = [
     "element classes of the harness use the isinstance(o, self.__class__) idiom of cfinterface.Register",
@@ -87,16 +87,20 @@ def file_class(F, which, cache={}):
     return cache[key]
 
 
-def build(fam, seq, types=None, route="append", fcls="base", made=None):
+def build(fam, seq, types=None, route="append", fcls="base", made=None, payloads=None):
     """route: how the same final sequence is reached through the container API;
-    made: a list that receives the elements created for seq, in order"""
+    made: a list that receives the elements created for seq, in order;
+    payloads: {position: object} - the element at that position is given this very object as its data"""
     classes, D, F, Dflt = types or mk_classes(fam)
     F = file_class(F, fcls)
     ph = Dflt(data="")
     data = D(ph)
     # class id 9: a blank default element (what heads every container; free to occur anywhere else as well)
-    def mk(c, vals):
-        e = Dflt(data="") if c == BLANK else classes[c](data=[codec.dec_val(v) for v in vals])
+    def mk(c, vals, pos=None):
+        if c != BLANK and payloads and pos in payloads:
+            e = classes[c](data=payloads[pos])
+        else:
+            e = Dflt(data="") if c == BLANK else classes[c](data=[codec.dec_val(v) for v in vals])
         if made is not None:
             made.append(e)
         return e
@@ -106,19 +110,19 @@ def build(fam, seq, types=None, route="append", fcls="base", made=None):
         getattr(data, {"register": "remove_registers_of_type", "block": "remove_blocks_of_type", "section": "remove_sections_of_type"}[fam])(Dflt)
     if route == "prepend_reverse":
         # append the first, then insert the others after it from the back
-        for c, vals in reversed(seq):
-            data.add_after(ph, mk(c, vals))
+        for pos, (c, vals) in reversed(list(enumerate(seq))):
+            data.add_after(ph, mk(c, vals, pos))
         if made is not None:
             made.reverse()
     elif route == "extra_then_remove":
         for i, (c, vals) in enumerate(seq):
             junk = classes[0](data=[{"zz": i}])
             data.append(junk)
-            data.append(mk(c, vals))
+            data.append(mk(c, vals, i))
             data.remove(junk)
     else:
-        for c, vals in seq:
-            data.append(mk(c, vals))
+        for pos, (c, vals) in enumerate(seq):
+            data.append(mk(c, vals, pos))
     return F(data=data)
 
 
@@ -140,6 +144,44 @@ def foreign(kind, fam, fa=None, types=None, case=None):
         return "x"
     other = {"register": "block", "block": "section", "section": "register"}[fam]
     return build(other, [])
+
+
+# ------------------------------------------------------------------ shared payloads
+def valid_share(case):
+    """the pairs [i, j] of case['share'] that make sense for the sequences as they are: element j of b is to hold
+    the data object of element i of a, both are typed elements and the values are the same"""
+    a, b = case["a"], case.get("b")
+    if not case.get("share") or b is None or case.get("hist_a") or case.get("hist_b"):
+        return []
+    out, seen = [], set()
+    for i, j in case["share"]:
+        if 0 <= i < len(a) and 0 <= j < len(b) and j not in seen and a[i][0] != BLANK and b[j][0] != BLANK and a[i][1] == b[j][1]:
+            out.append([i, j])
+            seen.add(j)
+    return out
+
+
+def rand_share(case):
+    """drawn from a stream of its own (derived from the case) so that the cases of the other dimensions stay as they were"""
+    import zlib
+
+    a, b = case["a"], case.get("b")
+    if b is None or case.get("hist_a") or case.get("hist_b"):
+        return None
+    rng = random.Random(zlib.crc32(json.dumps(case, sort_keys=True).encode()))
+    if rng.random() >= 0.35:
+        return None
+    share = []
+    for j, (cb, vb) in enumerate(b):
+        if cb == BLANK:
+            continue
+        if j < len(a) and a[j][0] != BLANK and a[j][1] == vb and rng.random() < 0.75:
+            share.append([j, j])
+            continue
+        others = [i for i, (ca, va) in enumerate(a) if i != j and ca != BLANK and va == vb]
+        if others and rng.random() < 0.2:
+            share.append([rng.choice(others), j])
+    return share or None
 
 
 # ------------------------------------------------------------------ objects with a past
@@ -368,7 +410,9 @@ def run_impl(case):
             else:
                 rdata = rhs.data if hasattr(rhs, "data") else rhs
         else:
-            rhs = build(fam, with_old(case["b"], hb) if hb else case["b"], types, case.get("route_b", "append"), case.get("fcls_b", "base"), made_b)
+            # shared payloads: some elements of b are given the very data object of an element of a (equal values)
+            shared = {j: made_a[i].data for i, j in valid_share(case)}
+            rhs = build(fam, with_old(case["b"], hb) if hb else case["b"], types, case.get("route_b", "append"), case.get("fcls_b", "base"), made_b, shared or None)
             rdata = rhs.data
         if ha or hb:
             # the objects have a past: they held other values, were compared, and were then edited in place;
@@ -407,6 +451,9 @@ def judge(case, obs, resp):
                 more += f"; other content in between: {obs['between']}"
             return {"status": "oracle", "why": f"reading {codec.dec_str(case['content'])!r} twice: {resp.get('failed')} is false{more}"}
         past = "".join(f"; {side} first held {with_old(case[side], case['hist_' + side])}, was compared, then edited in place ({case.get('hist_style', 'item')}) to the sequence shown" for side in ("a", "b") if case.get("hist_" + side) and case[side] is not None)
+        sh = valid_share(case)
+        if sh:
+            past += "; shared payloads: " + ", ".join(f"element {j} of b holds the very same data object as element {i} of a" for i, j in sh)
         return {"status": "oracle", "why": f"a={case['a']} b={case['b'] if case['b'] is not None else case.get('foreign')}: got {obs}; required {resp.get('model')}{past}"}
     if not resp["agree"]:
         return {"status": "corr", "why": "model and implementation disagree"}
@@ -423,6 +470,8 @@ def features(case, obs):
     f = ["shape=pair", f"family={case['family']}", f"len_a={len(case['a'])}", "relation=" + case.get("rel", "?"), "route_a=" + case.get("route_a", "append"), "route_b=" + case.get("route_b", "append"),
          "file_classes=" + ("same" if case.get("fcls_a", "base") == case.get("fcls_b", "base") else "different")]
     f.append("history=" + ("+".join(x for x in ("a", "b") if case.get("hist_" + x)) or "none"))
+    sh = valid_share(case)
+    f.append("shared_payloads=" + ("none" if not sh else "same_class" if all(case["a"][i][0] == case["b"][j][0] for i, j in sh) else "across_classes"))
     if isinstance(obs, dict) and "ab_file" in obs:
         f.append("equal" if obs["ab_file"] else "unequal")
     return f
@@ -521,6 +570,9 @@ def random_pair(rng):
             h = rand_hist(rng, case[side]) if case[side] is not None else None
             if h:
                 case["hist_" + side] = h
+    share = rand_share(case)
+    if share:
+        case["share"] = share
     return case
 
 
@@ -647,6 +699,11 @@ def shrinks(case):
             yield {k: v for k, v in case.items() if k != "hist_" + side}
     if case.get("hist_a") or case.get("hist_b"):
         return  # positions of a history refer to the sequences as they are
+    if case.get("share"):
+        yield {k: v for k, v in case.items() if k != "share"}
+        if len(case["share"]) > 1:
+            for n in range(len(case["share"])):
+                yield {**case, "share": case["share"][:n] + case["share"][n + 1 :]}
     if case.get("fcls_a", "base") != "base" and case.get("fcls_b", "base") != "base":
         yield {**case, "fcls_a": "base"}
         yield {**case, "fcls_b": "base"}
@@ -655,9 +712,17 @@ def shrinks(case):
     if case.get("route_b", "append") != "append":
         yield {**case, "route_b": "append"}
     a, b = case["a"], case["b"]
+
+    def reshare(i, both):
+        # positions of the shared payloads after element i is dropped (from a, or from a and b)
+        if not case.get("share"):
+            return {}
+        sh = [[p - (p > i), q - (q > i and both)] for p, q in case["share"] if p != i and not (both and q == i)]
+        return {"share": sh}
+
     if b is not None and len(a) == len(b):
         for i in range(len(a)):
-            yield {**case, "a": a[:i] + a[i + 1 :], "b": b[:i] + b[i + 1 :]}
+            yield {**case, "a": a[:i] + a[i + 1 :], "b": b[:i] + b[i + 1 :], **reshare(i, True)}
     elif len(a) > 1:
         for i in range(len(a)):
-            yield {**case, "a": a[:i] + a[i + 1 :]}
+            yield {**case, "a": a[:i] + a[i + 1 :], **reshare(i, False)}
